@@ -105,7 +105,7 @@ def shrink(mod, exe, driver, f):
 
 
 def write_replay(pid, payload):
-    d = os.path.join(vlib.VERIF, "replays")
+    d = vlib.REPLAYS
     os.makedirs(d, exist_ok=True)
     path = os.path.join(d, f"{pid}-{int(time.time())}-{os.getpid()}.json")
     with open(path, "w") as f:
@@ -152,7 +152,8 @@ def main():
     # 3. proofs + driver
     modules = list(mod.LEAN_MODULES)
     try:
-        driver = vlib.lake_build(["driver"])
+        vlib.lake_build(["driver_" + pid.lower()])
+        driver = vlib.driver_path(pid)
     except Broken as b:
         broken.append(("driver:" + b.what, b.detail))
     try:
